@@ -167,6 +167,12 @@ class Rewriter(ast.NodeTransformer):
             return ast.copy_location(ast.Call(func=_sx("sx_dtype"), args=[node.value], keywords=[]), node)
         return node
 
+    def visit_BinOp(self, node):
+        self.generic_visit(node)
+        if isinstance(node.op, ast.Div):
+            return ast.copy_location(ast.Call(func=_sx("sx_div"), args=[node.left, node.right], keywords=[]), node)
+        return node
+
     def visit_Compare(self, node):
         self.generic_visit(node)
         ops = {ast.Lt: "lt", ast.LtE: "le", ast.Gt: "gt", ast.GtE: "ge", ast.Eq: "eq", ast.NotEq: "ne"}
@@ -195,6 +201,7 @@ class _SX:
     sx_dtype = staticmethod(npx.sx_dtype)
     sx_jit = staticmethod(npx.sx_jit)
     sx_lit = staticmethod(npx.sx_lit)
+    sx_div = staticmethod(npx.sx_div)
 
 
 SX = _SX()
